@@ -7,14 +7,94 @@ import time
 
 import z3
 
-from .core import pow_axioms, sum_axioms, POW, SUM
+from .core import pow_axioms, sum_axioms, sum_axioms_nonrecursive, POW, SUM
 
 TIMEOUT_MS = int(os.environ.get("PYVC_TIMEOUT_MS", "20000"))
 
 
-def to_smt2(ob, extra_axioms=()):
+GLOBAL_FUNS = {"SUM", "POW", "MINF", "MAXF", "ARGMIN", "ARGMAX", "STD", "MEAN", "IDXOF"}
+
+
+def symbols(f, limit=4000):
+    out, seen, stack, n = set(), set(), [f], 0
+    while stack and n < limit:
+        x = stack.pop()
+        if x.get_id() in seen:
+            continue
+        seen.add(x.get_id())
+        n += 1
+        if z3.is_quantifier(x):
+            stack.append(x.body())
+        elif z3.is_app(x):
+            d = x.decl()
+            if d.kind() == z3.Z3_OP_UNINTERPRETED and d.name() not in GLOBAL_FUNS:
+                out.add(d.name())
+            stack.extend(x.children())
+    return out
+
+
+def _defines(h):
+    """if h is a definitional axiom (forall k. A[k] == body) or (c == term) return the defined symbol"""
+    if z3.is_quantifier(h) and h.is_forall() and h.num_vars() == 1:
+        b = h.body()
+        if z3.is_eq(b):
+            l = b.arg(0)
+            if z3.is_app(l) and l.decl().kind() == z3.Z3_OP_SELECT and z3.is_const(l.arg(0)) and z3.is_var(l.arg(1)):
+                return l.arg(0).decl().name()
+    if z3.is_eq(h) and z3.is_const(h.arg(0)) and h.arg(0).decl().kind() == z3.Z3_OP_UNINTERPRETED and "!" in h.arg(0).decl().name():
+        return h.arg(0).decl().name()
+    return None
+
+
+def relevant_hyps(ob, mode):
+    """hypothesis selection (dropping hypotheses is sound: it only weakens the query).
+    Definitions of the symbols the goal mentions are followed transitively; a fact is kept when all its rare symbols are
+    already relevant (mode 1: definitions + small quantifier-free facts only; 2: + such facts; 3: + facts sharing a symbol)."""
+    hyps = list(ob.hyps)
+    syms = [symbols(h) for h in hyps]
+    count = {}
+    for ss in syms:
+        for x in ss:
+            count[x] = count.get(x, 0) + 1
+    common = {x for x, c in count.items() if c > max(8, 0.4 * len(hyps))}
+    defs = {}
+    for i, h in enumerate(hyps):
+        d = _defines(h)
+        if d is not None:
+            defs.setdefault(d, []).append(i)
+    S = symbols(ob.goal) - common
+    keep = set()
+    for _ in range(4):
+        grew = False
+        for x in list(S):
+            for i in defs.get(x, []):
+                if i not in keep:
+                    keep.add(i)
+                    new = syms[i] - common - S
+                    if new:
+                        S |= new
+                    grew = True
+        if not grew:
+            break
+    for i, h in enumerate(hyps):
+        if i in keep:
+            continue
+        rare = syms[i] - common
+        small_qf = (not z3.is_quantifier(h)) and len(syms[i]) <= 4 and "ForAll" not in h.sexpr()[:3000].replace("forall", "ForAll") and "exists" not in h.sexpr()[:3000]
+        if small_qf and (mode >= 1):
+            keep.add(i)
+        elif mode >= 2 and rare and rare <= S:
+            keep.add(i)
+        elif mode >= 3 and rare & S:
+            keep.add(i)
+        elif mode >= 2 and not rare and not z3.is_quantifier(h) and len(h.sexpr()) < 400:
+            keep.add(i)
+    return [hyps[i] for i in sorted(keep)]
+
+
+def to_smt2(ob, extra_axioms=(), hyps=None):
     s = z3.Solver()
-    for h in ob.hyps:
+    for h in (ob.hyps if hyps is None else hyps):
         s.add(h)
     for a in extra_axioms:
         s.add(a)
@@ -28,20 +108,27 @@ def _uses(ob, name):
 
 
 Z3_CLI = os.environ.get("PYVC_Z3", "z3-new")
-SCHEDULE = ((0, 4), (7, 6), (42, 12), (1234, 25))     # (random seed, hard wall-clock seconds)
+SCHEDULE = (("rel2", 0, 4), ("all", 0, 5), ("rel1", 7, 5), ("rel3", 7, 8), ("all", 42, 12), ("rel2", 99, 10), ("all", 1234, 20))
+# (hypothesis selection, random seed, hard wall-clock seconds); "relN" = relevance closure of depth N (sound weakening)
 
 
 def _run(args):
     """one obligation: z3 CLI in a subprocess (hard timeout), escalating schedule of seeds/budgets"""
-    idx, smt, timeout_ms, seeds = args
+    idx, smts, timeout_ms, seeds = args
     t0 = time.time()
-    sched = SCHEDULE if len(seeds) > 1 else ((0, max(1, timeout_ms // 1000)),)
-    fd, path = tempfile.mkstemp(suffix=".smt2", prefix="pyvc_")
-    with os.fdopen(fd, "w") as f:
-        f.write(smt)
+    sched = SCHEDULE if len(seeds) > 1 else (("all", 0, max(1, timeout_ms // 1000)),)
+    paths = {}
+    for k, smt in smts.items():
+        fd, pth = tempfile.mkstemp(suffix=".smt2", prefix="pyvc_")
+        with os.fdopen(fd, "w") as f:
+            f.write(smt)
+        paths[k] = pth
     last, info = "unknown", ""
     try:
-        for seed, secs in sched:
+        for sel, seed, secs in sched:
+            if sel not in paths:
+                continue
+            path = paths[sel]
             cmd = [Z3_CLI, f"-T:{secs}", f"smt.random_seed={seed}", f"sat.random_seed={seed}", path]
             try:
                 out = subprocess.run(cmd, capture_output=True, text=True, timeout=secs + 5).stdout
@@ -49,7 +136,9 @@ def _run(args):
                 out = "timeout"
             first = out.strip().splitlines()[0].strip() if out.strip() else "unknown"
             if first == "unsat":
-                return idx, "unsat", "", (time.time() - t0) * 1000, "z3-5.1" + (f"(seed {seed})" if seed else "")
+                return idx, "unsat", "", (time.time() - t0) * 1000, "z3-5.1" + (f"(seed {seed})" if seed else "") + ("" if sel == "all" else f"[{sel}]")
+            if first == "sat" and sel != "all":
+                continue                  # a model of a weakened query proves nothing
             if first == "sat":
                 try:
                     m = subprocess.run([Z3_CLI, f"-T:{secs}", "-model", path], capture_output=True, text=True, timeout=secs + 5).stdout
@@ -58,7 +147,8 @@ def _run(args):
                 return idx, "sat", m[:6000], (time.time() - t0) * 1000, "z3-5.1"
             last, info = "unknown", first
     finally:
-        os.unlink(path)
+        for pth in paths.values():
+            os.unlink(pth)
     return idx, last, info, (time.time() - t0) * 1000, "z3-5.1"
 
 
@@ -96,25 +186,35 @@ def discharge(obls, workers=None, timeout_ms=None, second_backend=False):
         smt = to_smt2(ob)
         extra = []
         if "POW" in smt:
-            pax = pax or pow_axioms()
-            extra += pax
+            if "POW_MONO" in (getattr(ob, "lemmas", None) or []):
+                extra += pow_axioms(mono=True)
+            else:
+                pax = pax or pow_axioms()
+                extra += pax
         if "SUM" in smt:
-            sax = sax or sum_axioms()
-            extra += sax
+            if ob.kind == "lemma":
+                pass                      # lemma obligations carry their own (recursive) axioms
+            else:
+                sax = sax or sum_axioms_nonrecursive()
+                extra += sax
         lem = getattr(ob, "lemmas", None)
         if lem:
             from .lemmas import sum_lemma_axiom
-            extra += [sum_lemma_axiom(n) for n in lem]
+            extra += [sum_lemma_axiom(n) for n in lem if n != "POW_MONO"]
             if "SUM" not in smt:
-                sax = sax or sum_axioms()
+                sax = sax or sum_axioms_nonrecursive()
                 extra += sax
         if extra:
             smt = to_smt2(ob, extra)
         ob._smt = smt
         if ob.kind.startswith("canary"):
-            todo.append((i, smt, 1500, (0,)))
+            todo.append((i, {"all": smt}, 1500, (0,)))
         else:
-            todo.append((i, smt, timeout_ms, (0, 7, 42)))
+            smts = {"all": smt}
+            if len(ob.hyps) > 12 and ob.kind != "lemma":
+                for d in (1, 2, 3):
+                    smts[f"rel{d}"] = to_smt2(ob, extra, hyps=relevant_hyps(ob, d))
+            todo.append((i, smts, timeout_ms, (0, 7, 42)))
     if todo:
         if workers > 1 and len(todo) > 1:
             from concurrent.futures import ThreadPoolExecutor
